@@ -34,8 +34,9 @@ Definition res_of (s : st) : bool * list N :=
   match result s with Some r => r | None => (false, []) end.
 
 (* a Start issued from inside a completion callback.
-   [cleared] = was m_on_complete already NULL when the callback ran (true for Abort, false for
-   SendDiscovery, which clears it only after the callback returns). *)
+   [cleared] = was m_on_complete already NULL when the callback ran: true for Abort and (fixes/04) for
+   SendDiscovery; false for the callback of a refused Start, which runs while the other discovery's
+   m_on_complete is still set. *)
 Definition nested (cleared : bool) (act : cbact) (ss : sess) : sess :=
   match act with
   | ANone => ss
@@ -64,7 +65,7 @@ Definition s_start (inc : bool) (act : cbact) (ss : sess) : sess :=
   else mkSess (init inc (ag ss)) id act (id + 1) (events ss).
 
 (* a reply from the line (ignored when nothing is outstanding) *)
-Definition s_reply (a : answer) (ss : sess) : sess := fire false ss (step false (ag ss) a).
+Definition s_reply (a : answer) (ss : sess) : sess := fire true ss (step false (ag ss) a).
 
 Definition s_abort (ss : sess) : sess := fire true ss (abort (ag ss)).
 
@@ -75,7 +76,7 @@ Definition late (k : pend) (a : answer) (s : st) : st :=
   | [] => s
   | _ => step false (set_pending s k) a
   end.
-Definition s_late (k : pend) (a : answer) (ss : sess) : sess := fire false ss (late k a (ag ss)).
+Definition s_late (k : pend) (a : answer) (ss : sess) : sess := fire true ss (late k a (ag ss)).
 
 (* ~DiscoveryAgent(): calls Abort() (a pending callback runs once with (false, {})); the agent is gone,
    a new one is constructed afterwards.  The dying agent's callback does not start another run. *)
